@@ -247,6 +247,7 @@ func init() {
 			Runs: []Run{
 				{Harness: "zzverif/zzh.ZZC12Gofmt", Desc: "two writes that an unformatted source keeps on one physical line (if/else on one line; two statements separated by ';') are reported as often as after gofmt has split the lines", Bounds: map[string]interface{}{"holes": 1}},
 				{Harness: "zzverif/zzh.ZZC12Layout", Desc: "the same six declarations (annotated type, constructor, user function, package-level initialiser, method with receiver overwrite and a shadowing local, @testonly function) in five layouts: canonical, reversed order, split over two files with blank lines / line and block comments inserted, files in another order, locals and receiver consistently renamed; annotations symbolic; 10 statement tags x 4 codes compared", Bounds: map[string]interface{}{"layouts": 7, "holes": 3, "statement_tags": 10}},
+				{Harness: "zzverif/zzh.ZZC12GroupDoc", Desc: "an annotated type ( ... ) group whose second member gets an ordinary comment, a keyword-mentioning comment, its own annotation or nothing above it: the writes to both members keep their verdicts", Bounds: map[string]interface{}{"holes": 2}},
 				{Harness: "zzverif/zzh.ZZC02Local", Desc: "consistent renaming of a local: a local function value named new vs the same function named mk, both called with a *T: same (empty) verdict", Bounds: map[string]interface{}{"skeleton": "c02SrcLocal"}},
 			},
 			Outside:     []string{"gofmt reformatting other than blank lines/comments and the two line-split cases of ZZC12Gofmt", "TONL01/PKGO01 once-per-file placement under reordering (the using package and type are compared in C03/C04, not here)", "compositions of more than the listed transformations"},
